@@ -760,6 +760,12 @@ func namePointers(opts *FlattenOpts) error {
 
 	for _, key := range depthFirst {
 		v := refsToReplace[key]
+		if _, stillThere := New(opts.Swagger()).references.allRefs[key]; !stillThere {
+			// the holder of this pointer has been moved under a new definition by a previous replacement:
+			// the pointer is dealt with at its new location, by the next pass
+			continue
+		}
+
 		// update current replacement, which may have been updated by previous changes of deeper elements
 		result, erd := replace.DeepestRef(opts.Swagger(), opts.ExpandOpts(false), v.Ref)
 		if erd != nil {
